@@ -321,7 +321,7 @@ pub fn target() -> gen::Target {
         aarch64: cfg!(target_arch = "aarch64"),
         miri,
         scale_small: miri,
-        cost_max_log2: if miri { 10 } else { COST_MAX_LOG2.load(Ordering::Relaxed) as u32 },
+        cost_max_log2: if miri { 11 } else { COST_MAX_LOG2.load(Ordering::Relaxed) as u32 },
         long_history_log2: if miri { 0 } else { LONG_HISTORY_LOG2.load(Ordering::Relaxed) as u32 },
     }
 }
